@@ -8,7 +8,9 @@ PROP = "C14"
 RULE = ("random populated topologies (3..12 real nodes, >=2 nodes on most levels) with per-node "
         "allow_multicast and multicast_relay flags and seeded MCU profiles; multicasts from every "
         "sender class (master, 0o1, other level-1, deeper levels) to level None/0..4 and the "
-        "out-of-range values -1 and 7, message lengths 0..144, one at a time, judged at quiescence "
+        "out-of-range values -1 and 7, message lengths 0..144, one at a time, plus (a) nodes whose "
+        "multicast_level was re-assigned through the setter and (b) multicasts that arrive while "
+        "a level member is inside its NETWORK_ACK wait for a routed unicast; judged at quiescence "
         "from all application logs and the air log (copies per node, levels reached, packets per "
         "frame, ACK packets, relayed frames). Non-trivial: a multicast frame crossed the air and "
         "quiescence was reached; distinct = (sender class, level argument, length class, relay "
